@@ -27,7 +27,8 @@ META = {
              "fault fired"),
     "abstract_measure": "distinct (layout, blocksize class) pairs",
     "gates": {"quick": {"single_file": 1000, "multi_file": 1000, "small_blocksize": 800, "multi_open": 1500,
-                        "io_error": 150, "quoted_field": 500, "read_names_header": 500},
+                        "io_error": 150, "quoted_field": 500, "read_names_header": 500,
+                        "empty_first_partition": 200, "stale_target_files": 1000},
               "thorough": {"single_file": 1000}},
     "anchors": ["dask/dataframe/io/csv.py", "dask/bytes/core.py"],
     "real": ["dask.dataframe.io.csv.to_csv/_write_csv/read_csv/text_blocks_to_pandas/pandas_read_text",
